@@ -26,6 +26,11 @@
 //!     max N the listed set after every creation is exactly the last min(i, N) created, and each of them
 //!     can be rolled back to with its recorded observation vector.
 //!
+//! Both text entry points of the router are driven: a quarter of the cases send CHECKPOINT / ROLLBACK TO /
+//! CHECKPOINTS through `execute_parsed_async` (these have an async implementation of their own), another
+//! quarter send every statement incl. the observation vector through it, on a current-thread tokio runtime
+//! owned by the harness; signatures of what is seen after such a rollback carry `+async-entry`.
+//!
 //! Variants per case (drawn from the case seed): auto-checkpoints on/off, 4-dim or 384-dim vectors,
 //! router query cache on (relational statements only), VectorEngine HNSW cache built after the checkpoint
 //! (observed through four SIMILAR statements on the legacy `QueryRouter::execute` path, the only router path
@@ -109,6 +114,11 @@ struct Cfg {
     hnsw: bool,
     #[serde(default)]
     btree: bool,
+    /// which statements go through `execute_parsed_async` (on a current-thread tokio runtime owned by the
+    /// harness) instead of `execute_parsed`: 0 none, 1 CHECKPOINT / ROLLBACK TO / CHECKPOINTS (the statements
+    /// with an async implementation of their own), 2 every statement incl. the observation vector
+    #[serde(default)]
+    async_mode: u8,
 }
 
 // ------------------------------------------------------------------------------------------------
@@ -401,6 +411,8 @@ impl Source for Fixed {
 struct Runner {
     cfg: Cfg,
     router: QueryRouter,
+    rt: tokio::runtime::Runtime,
+    last_rb_async: bool,
     queries: Vec<Q>,
     recs: HashMap<u32, CpRec>,
     /// checkpoints that must currently be listed, oldest first
@@ -441,9 +453,12 @@ impl Runner {
         if cfg.qcache {
             router.init_cache();
         }
+        let rt = tokio::runtime::Builder::new_current_thread().enable_time().build().map_err(|e| format!("tokio runtime: {}", e))?;
         Ok(Runner {
             cfg: cfg.clone(),
             router,
+            rt,
+            last_rb_async: false,
             queries: all_queries(cfg),
             recs: HashMap::new(),
             expected: Vec::new(),
@@ -464,8 +479,28 @@ impl Runner {
         })
     }
 
+    fn goes_async(&self, s: &str) -> bool {
+        match self.cfg.async_mode {
+            0 => false,
+            1 => {
+                let up = s.trim_start().to_ascii_uppercase();
+                up.starts_with("CHECKPOINT") || up.starts_with("ROLLBACK")
+            }
+            _ => true,
+        }
+    }
+
+    /// one statement through the text entry point this case uses for it
+    fn run_text(&self, s: &str) -> Result<QueryResult, String> {
+        if self.goes_async(s) {
+            self.rt.block_on(self.router.execute_parsed_async(s)).map_err(|e| e.to_string())
+        } else {
+            self.router.execute_parsed(s).map_err(|e| e.to_string())
+        }
+    }
+
     fn exec(&mut self, s: &str) -> Result<QueryResult, String> {
-        let r = self.router.execute_parsed(s).map_err(|e| e.to_string());
+        let r = self.run_text(s);
         if self.trace {
             let shown: String = s.chars().take(160).collect();
             eprintln!("    {}\n        => {}", shown, short(&canon(&r)));
@@ -493,8 +528,8 @@ impl Runner {
         let out: Vec<Ans> = qs
             .iter()
             .map(|q| {
-                let r = if q.legacy { self.router.execute(&q.text) } else { self.router.execute_parsed(&q.text) };
-                canon(&r.map_err(|e| e.to_string()))
+                let r = if q.legacy { self.router.execute(&q.text).map_err(|e| e.to_string()) } else { self.run_text(&q.text) };
+                canon(&r)
             })
             .collect();
         count(&mut self.counters, "observation_queries_executed", qs.len() as u64);
@@ -712,6 +747,10 @@ impl Runner {
             count(&mut self.counters, "rollbacks_repeated_same_target", 1);
         }
         self.last_rb = Some(label);
+        self.last_rb_async = self.goes_async(&text);
+        if self.last_rb_async {
+            count(&mut self.counters, "rollbacks_through_async_entry", 1);
+        }
         self.constraint_stmt_since_rb = false;
 
         // ---- data: every observation query answers as recorded
@@ -739,7 +778,7 @@ impl Runner {
                     } else {
                         (q.class, nature)
                     };
-                    let sig = format!("rollback{}:{}:{}", if self.cfg.qcache { "+query-cache" } else { "" }, class, nature);
+                    let sig = format!("rollback{}{}:{}:{}", if self.last_rb_async { "+async-entry" } else { "" }, if self.cfg.qcache { "+query-cache" } else { "" }, class, nature);
                     let e = seen.entry(sig).or_insert((0, String::new()));
                     e.0 += 1;
                     if e.1.is_empty() {
@@ -818,7 +857,11 @@ impl Runner {
             Some(l) => format!("after the last ROLLBACK TO cp{}:", l),
             None => "(no rollback yet):".to_string(),
         };
-        let pfx = if self.last_rb.is_some() { "post-rollback-write" } else { "write" };
+        let pfx = match (self.last_rb.is_some(), self.last_rb_async) {
+            (true, true) => "post-rollback-write+async-entry",
+            (true, false) => "post-rollback-write",
+            _ => "write",
+        };
         macro_rules! bad {
             ($kind:expr, $nature:expr, $($arg:tt)*) => {{
                 let d = format!($($arg)*);
@@ -1564,11 +1607,12 @@ fn cycle_cfg(rng: &mut Rng) -> Cfg {
         strict_retention: false,
         hnsw: (2..5).contains(&variant),
         btree: (5..9).contains(&variant),
+        async_mode: [0u8, 0, 1, 2][rng.below(4)],
     }
 }
 
 fn retention_cfg(rng: &mut Rng) -> Cfg {
-    Cfg { auto_cp: false, qcache: false, dim: 4, max_cp: 1 + rng.below(3), strict_retention: true, hnsw: false, btree: false }
+    Cfg { auto_cp: false, qcache: false, dim: 4, max_cp: 1 + rng.below(3), strict_retention: true, hnsw: false, btree: false, async_mode: [0u8, 1, 2][rng.below(3)] }
 }
 
 // ------------------------------------------------------------------------------------------------
@@ -1643,10 +1687,15 @@ fn script_text(items: &[Item]) -> String {
 
 fn cfg_text(cfg: &Cfg) -> String {
     format!(
-        "router: QueryRouter::new() + init_blob() + init_checkpoint_with_config(max_checkpoints={}, auto_checkpoint={}){}",
+        "router: QueryRouter::new() + init_blob() + init_checkpoint_with_config(max_checkpoints={}, auto_checkpoint={}){}; {}",
         cfg.max_cp,
         cfg.auto_cp,
-        if cfg.qcache { " + init_cache()" } else { "" }
+        if cfg.qcache { " + init_cache()" } else { "" },
+        match cfg.async_mode {
+            0 => "all statements through execute_parsed",
+            1 => "CHECKPOINT / ROLLBACK TO / CHECKPOINTS through execute_parsed_async (current-thread tokio runtime), everything else through execute_parsed",
+            _ => "all statements through execute_parsed_async (current-thread tokio runtime)",
+        }
     )
 }
 
@@ -1683,6 +1732,9 @@ fn report_outcome(part: &str, case_seed: u64, cfg: &Cfg, o: Outcome, report: &mu
     }
     if cfg.btree {
         report.count("cases_with_btree_index", 1);
+    }
+    if cfg.async_mode > 0 {
+        report.count(&format!("cases_with_async_entry[mode{}]", cfg.async_mode), 1);
     }
     if cfg.dim == 384 {
         report.count("cases_with_384_dim_vectors", 1);
@@ -1809,6 +1861,7 @@ fn main() {
             "legacy-path SIMILAR answers recorded while a VectorEngine HNSW cache built by the harness was live are approximate and are not compared; a correct rollback is expected to invalidate that cache like every write path of VectorEngine does".into(),
             "an index built with QueryRouter::build_vector_index() is never built: it is a manual snapshot no write refreshes and its scores differ from the exact search in the last bit".into(),
             "with the router's query cache on, only relational statements are issued (graph/vector writes never invalidate that cache, which is outside this property)".into(),
+            "half of the programs use the async text entry point (execute_parsed_async driven by a current-thread tokio runtime) for the checkpoint statements or for all statements; the oracle is the same".into(),
             "set-up calls that are not statements: VectorEngine::build_and_cache_index and RelationalEngine::create_btree_index (the router has no statement for either)".into(),
             "programs are capped at 9 checkpoints in total because every checkpoint image embeds all earlier images (size doubles per checkpoint)".into(),
             "answers that are engine query-deadline errors are counted inconclusive, never compared".into(),
@@ -1822,6 +1875,7 @@ fn main() {
                 ("observation_answers_compared", args.by_tier(20_000, 400_000)),
                 ("battery_writes_checked", args.by_tier(200, 4_000)),
                 ("retention_creations", args.by_tier(6, 60)),
+                ("rollbacks_through_async_entry", args.by_tier(30, 600)),
                 ("write_statements_ok", args.by_tier(1_000, 20_000)),
             ]
         },
